@@ -1,11 +1,13 @@
 """Registry entry for C18 (see tools/registry.py)."""
 
 _P = 'Snowflake.Props.C18'
+_PA = 'Snowflake.Props.C18Attr'
 _T = 'Snowflake.Tie.ServerLib'
 _N = 'Snowflake.ClientAddr.C18.'
+_A = 'Snowflake.Attribution.C18.'
 
 SPEC = {'id': 'C18',
- 'modules': [_P, _T],
+ 'modules': [_P, _PA, _T],
  'theorems': [(_P, _N + 'clientAddr_spec'),
               (_P, _N + 'clientAddr_tells_that_address'),
               (_P, _N + 'render_parses_back'),
@@ -19,24 +21,59 @@ SPEC = {'id': 'C18',
               (_P, _N + 'ring_capacity_zero'),
               (_P, _N + 'ring_remembers'),
               (_P, _N + 'ring_forgets'),
-              (_P, _N + 'ring_get_own')],
+              (_P, _N + 'ring_get_own'),
+              # attribution clause (Model/Attribution.lean)
+              (_PA, _A + 'afterEv_ring'),
+              (_PA, _A + 'outputs_stream'),
+              (_PA, _A + 'report_unaffected'),
+              (_PA, _A + 'report_fixed_at_establish'),
+              (_PA, _A + 'stream_address_fixed_at_establish'),
+              (_PA, _A + 'report_none_iff'),
+              (_PA, _A + 'last_establish'),
+              (_PA, _A + 'establish_get_spec'),
+              (_PA, _A + 'establish_remembers'),
+              (_PA, _A + 'establish_forgets'),
+              (_PA, _A + 'establish_no_carrier'),
+              (_PA, _A + 'establish_get_own'),
+              (_PA, _A + 'attribution'),
+              (_PA, _A + 'never_another_sessions_address'),
+              (_PA, _A + 'reported_address_is_own_sanitised_client_ip')],
  'ties': [(_T, 'Snowflake.Tie.ServerLib.capacity_tie'),
           (_T, 'Snowflake.Tie.ServerLib.clientAddr_listing'),
           (_T, 'Snowflake.Tie.ServerLib.newClientIDMap_listing'),
           (_T, 'Snowflake.Tie.ServerLib.set_cap0_listing'),
           (_T, 'Snowflake.Tie.ServerLib.set_delete_listing'),
           (_T, 'Snowflake.Tie.ServerLib.set_write_listing'),
-          (_T, 'Snowflake.Tie.ServerLib.get_listing')],
- 'harness': [{'pkg': 'server/lib', 'test': 'TestVerifC18ServerLib', 'checklinkname': True}],
- 'overlay': {'server/lib/zz_verif_c18_test.go': 'c18_serverlib_test.go'},
+          (_T, 'Snowflake.Tie.ServerLib.get_listing'),
+          (_T, 'Snowflake.Tie.ServerLib.attribution_sites'),
+          (_T, 'Snowflake.Tie.ServerLib.acceptStreams_get_once'),
+          (_T, 'Snowflake.Tie.ServerLib.acceptStreams_get_before_loop'),
+          (_T, 'Snowflake.Tie.ServerLib.acceptStreams_stamps_every_stream'),
+          (_T, 'Snowflake.Tie.ServerLib.serveHTTP_addr_listing'),
+          (_T, 'Snowflake.Tie.ServerLib.turbotunnel_set_listing')],
+ 'harness': [{'pkg': 'server/lib', 'test': 'TestVerifC18ServerLib', 'checklinkname': True},
+             {'pkg': 'server/lib', 'test': 'TestVerifC18Attribution', 'checklinkname': True, 'timeout': '15m'}],
+ 'overlay': {'server/lib/zz_verif_c18_test.go': 'c18_serverlib_test.go',
+             'server/lib/zz_verif_c18attr_test.go': 'c18_attr_test.go'},
  'rule': 'cases = client_ip strings (IPv4 incl. leading zeros / too many or few fields / ports / zones / junk; IPv6 for '
          'every pattern of zero groups in canonical, expanded, padded, upper-case, arbitrarily compressed and '
          'dotted-tail spellings plus broken spellings; 0.0.0.0, ::, mapped forms; mutations and random bytes) through '
          'the real clientAddr and net.ParseIP; raw 0/3/4/5/15/16/17-byte slices through net.IP.String / IsUnspecified '
          '/ IsLoopback; whole Set/Get operation sequences with colliding ClientIDs (incl. the all-zero id) on fresh '
          'clientIDMaps of capacity 0..8 and clientIDAddrMapCapacity (one case = one sequence; outputs of every Get, '
-         'len(current), oldest and all entries compared). non-trivial = non-empty result / non-empty sequence; '
-         'distinct = distinct (class, case line)',
+         'len(current), oldest and all entries compared). Attribution: one case = one generated scenario against the '
+         'real server (Transport.Listen on 127.0.0.1:0, real WebSocket carriers with ?client_ip=..., a kcp-go + smux '
+         'client per session wired as client/lib newSession): 2-4 sessions with ClientIDs that differ in one byte '
+         '(sometimes the all-zero id), client_ip of every class (valid v4/v6, absent, empty, unspecified, junk, random '
+         'bytes; valid ones unique per scenario), dead carriers of the same ClientID before and after the '
+         'establishment, a redial (second live carrier, different client_ip) after the establishment and before a '
+         'later stream, carriers of other ClientIDs in between, wrong-token carriers, 2-7 streams per session, a '
+         'carrier whose session starts only after further foreign carriers; map = the package\'s own (scenario 0), a '
+         'fresh newClientIDMap(clientIDAddrMapCapacity), or newClientIDMap(0..4) so that ids are pushed out; steps are '
+         'separated by causal barriers (stream tag read by the Accept loop / server closed the TCP connection of a '
+         'dead carrier / Set visible), RemoteAddr() of every connection returned by Accept() is compared with the '
+         'model run of the event sequence and judged by direct oracles. non-trivial = non-empty result / non-empty '
+         'sequence / scenario with at least one accepted stream; distinct = distinct (class, case line)',
  'level_text': 'The sanitiser clauses (empty iff absent/unparseable/unspecified; otherwise JoinHostPort(ip.String(), 1) '
                'of the parsed address; that text parses back to exactly that 16-byte address, for IPv4, IPv4-mapped and '
                'every IPv6 zero-run compression) and the ring-map clauses (for every capacity n >= 0 and every '
@@ -45,9 +82,34 @@ SPEC = {'id': 'C18',
                'kernel-checked theorems over a model written statement by statement from clientAddr / Set / Get. The '
                'model is tied to the source by regenerated statement listings (guards, order, presence) and the '
                'capacity constant, and by differential runs of the real functions against the compiled model and '
-               'against an independent bounded-log reference.',
- 'level_note': "Not covered: the 'attribution' clause (which Set/Get the HTTP handler and the KCP accept loop perform, "
-               'across interleaved carriers) belongs to the server LTS of C05; the mutex of clientIDMap is C20. '
+               'against an independent bounded-log reference. The attribution clause is a set of kernel-checked '
+               'theorems over an event model on top of that ring map (carrier id ip = Set id (clientAddr ip); '
+               'establish s id = the session\'s address := Get id; stream s = report the session\'s address), for '
+               'every capacity and every event sequence: a stream reports the address fixed at the (last) '
+               'establishment of its session whatever carriers of any ClientID and establishments of other sessions '
+               'follow; that address is the sanitised client_ip of the most recent carrier of the ClientID if fewer '
+               'than `capacity` carriers (of other ClientIDs, counted with repetition) arrived since, and nil if '
+               '`capacity` or more did or there was none; a reported address was presented before the establishment '
+               'by a carrier with the same ClientID and, if non-empty, is JoinHostPort(ip.String(), 1) of the valid '
+               'specified address its client_ip denotes. The event model is tied to the source by regenerated '
+               'listings: clientIDAddrMap is mentioned by turbotunnelMode and acceptStreams only, once each; '
+               'ServeHTTP computes addr := clientAddr(r.URL.Query().Get("client_ip")) once and passes it as the addr '
+               'parameter of the single turbotunnelMode call; turbotunnelMode performs Set(clientID, addr) with the '
+               'ClientID read from the carrier, at top level, before the goroutines that queue the carrier\'s '
+               'packets; acceptStreams performs its only Get, keyed by conn.RemoteAddr().(turbotunnel.ClientID), at '
+               'top level before its only loop, assigns addr nowhere else, and the loop queues every accepted stream '
+               'as SnowflakeClientConn{Conn: stream, address: addr}, whose RemoteAddr returns conn.address; and by '
+               'scenario runs of the real server against the compiled model and direct oracles.',
+ 'level_note': "Attribution: the event model takes Set and Get as atomic and totally ordered (the mutex of clientIDMap is "
+               'C20) and takes from kcp-go / smux, unproved, that acceptStreams runs once per KCP session, that the '
+               'session\'s RemoteAddr() is the ClientID with which QueueIncoming tagged its packets (upstream tagging is '
+               'C05) and that AcceptStream yields each stream once; these are exercised by the scenario harness only. '
+               'The harness drives sequential orders fixed by causal barriers (it does not race a Set against a Get; '
+               'either order is an event sequence of the model), replaces the global map by newClientIDMap(k) to '
+               'reach small capacities, and uses a read-only clientIDAddrMap.Get as the barrier of a carrier whose '
+               'session starts later; a scenario whose barrier is not reached in time is recorded as skipped, not '
+               'judged. The listings are syntactic (statement order and nesting, identifier mentions; no alias or '
+               'data-flow analysis beyond single assignments). '
                'Trusted: Lean kernel; the hand-written model of net.ParseIP / netip.ParseAddr / net.IP.String / '
                'IsUnspecified / JoinHostPort (Go 1.23.5; validated differentially, not verified); the statement '
                'listing extractor; Set/Get/clientAddr are outside the translator subset, so there is no Gen.f = Model.f '
